@@ -192,6 +192,7 @@ fn w_i32_unsigned_abs(x: i32) -> (r: u32) ensures r == (if x >= 0 { x as int } e
     ib.rw('R4', r'python_ver\.minor < Some\((\d+)\)', r'!w_minor_ge(python_ver.minor, \1)')
     ib.contract("""requires self.code@.len() <= 0xFFFF_FFFF, self.lnotab@.len() <= 0xFFFF_FFFF, self.exceptiontable@.len() <= 0xFFFF_FFFF,
         self.filename.bytes().len() <= 0xFFFF_FFFF, self.name.bytes().len() <= 0xFFFF_FFFF, self.qualname.bytes().len() <= 0xFFFF_FFFF,
+        self.consts@.len() <= 0xFFFF_FFFF, self.names@.len() <= 0xFFFF_FFFF, forall|k: int| 0 <= k < self.names@.len() ==> self.names@[k].bytes().len() <= 0xFFFF_FFFF,
     ensures res@ == code_layout(self, python_ver.minor),   // the fields CPython's unmarshaller expects for that version, in its order""")
     ib.body_prologue("broadcast use vstd::seq::group_seq_axioms;")
     ib.insert_at(r'bytes\.append\(&mut w_u32_le_vec\(self\.kwonlyargcount\)\)', "        proof { assert(bytes@ =~= layout_a(self, python_ver.minor)); }", where='before')
@@ -201,7 +202,28 @@ fn w_i32_unsigned_abs(x: i32) -> (r: u32) ensures r == (if x >= 0 { x as int } e
     ib.insert_at(r'(?m)^\s*bytes\s*$', "        proof { assert(bytes@ =~= code_layout(self, python_ver.minor)); }", where='before')
     unit.raw("impl CodeObj {\n")
     unit.add(ib)
-    unit.raw("}\n} // verus!\n")
+    unit.raw("}\n")
+    # ---- writer: tuples of names and of constants (header + elements) ---------------------------------------------------------
+    TUP_INV = """invariant
+            i <= %(v)s@.len(), %(v)s@.len() <= 0xFFFF_FFFF, %(extra)s
+            tuple@ == tuple_header(%(v)s@.len()) + %(body)s,
+        decreases %(v)s@.len() - i,"""
+    for (fname, source, vec, body, elem_pre) in (
+            ('strs_into_bytes', ssrc, 'names', 'strs_body(names@.take(i as int))', 'forall|k: int| 0 <= k < names@.len() ==> names@[k].bytes().len() <= 0xFFFF_FFFF,'),
+            ('consts_into_bytes', csrc, 'consts', 'consts_body(consts@.take(i as int), python_ver.minor)', '')):
+        tb = Snippet(source.fn(fname), fname)
+        rules.strip_vis_attrs(tb)
+        tb.rw('R9', r'let mut tuple = vec!\[\];', 'let mut tuple: Vec<u8> = Vec::new();', expect=1)
+        tb.rw('R8', r'&mut \((\w+)\.len\(\) as u32\)\.to_le_bytes\(\)\.to_vec\(\)', r'&mut w_u32_le_vec(\1.len() as u32)', expect=1)
+        # `for x in vec` (by value) -> indexed loop over the same vector with a clone of each element (Verus has no by-value Vec iteration)
+        tb.rw('R4', r'for (\w+) in %s(?:\.into_iter\(\))? \{' % vec, r'let mut i: usize = 0; while i < %s.len() { let \1 = %s[i].clone(); i = i + 1;' % (vec, vec), expect=1)
+        tb.contract("requires %s@.len() <= 0xFFFF_FFFF, %s\n    ensures res@ == %s," % (vec, elem_pre, 'strs_enc(names@)' if fname == 'strs_into_bytes' else 'consts_enc(consts@, python_ver.minor)'))
+        tb.body_prologue("broadcast use vstd::seq::group_seq_axioms; reveal(strs_enc); reveal(consts_enc);")
+        tb.loop_spec(0, TUP_INV % {"v": vec, "body": body, "extra": elem_pre},
+                     body_prologue="proof { assert(%s@.take(i as int + 1).drop_last() =~= %s@.take(i as int)); assert(%s@.take(i as int + 1).last() == %s@[i as int]); }" % (vec, vec, vec, vec))
+        tb.insert_at(r'(?m)^\s*tuple\s*$', "    proof { assert(%s@.take(i as int) =~= %s@); }" % (vec, vec), where='before')
+        unit.add(tb)
+    unit.raw("} // verus!\n")
     run.sample({"function": "CodeObj::into_bytes", "ensures": "res == 'c' ++ the fields of CPython's marshal layout for the target version, in order (posonlyargcount from 3.8, nlocals up to 3.10, qualname and exceptiontable from 3.11); compound fields by their own writers"})
     run.sample({"function": "str_into_bytes", "ensures": "== CPython's marshal encoding of the string (short-ASCII header with length byte, or 'u' + u32 byte length) for every string below 4 GiB"})
     for fn_, what in (("take/take_byte/consume/deserialize_u32", "Ok <=> enough bytes; Ok returns exactly the next bytes and leaves the rest; Err leaves the input untouched; never panics"),
